@@ -200,6 +200,16 @@ def mk_fn(f, variant=None):
         g = lambda x: None if x == c else x
     elif n == 'nanIf':
         g = lambda x: math.nan if x == c else x
+    elif n == 'seqc':
+        calls = [0]
+
+        def g(x):          # not a function of the item: a round-robin dispatcher
+            calls[0] += 1
+            return (calls[0] - 1) % c
+    elif n == 'appendc':
+        def g(x):
+            x.append(c)          # in place: the consumer owns what it receives
+            return x
     elif n == 'failIf':
         def g(x):
             if x == c:
@@ -295,6 +305,13 @@ def mk_pred(p):
         return lambda x: x != c
     if n == 'notNone':
         return lambda x: x is not None
+    if n == 'every2':
+        calls = [0]
+
+        def every2(x):     # a budget: accepts every second consultation, whatever the item
+            calls[0] += 1
+            return calls[0] % 2 == 0
+        return every2
     if n == 'failIfP':
         def g(x):
             if x == c:
